@@ -2,6 +2,7 @@
 from __future__ import annotations
 
 import copy
+import warnings
 import math
 import pickle
 
@@ -24,8 +25,10 @@ def cplx(z, s2):
     return complex(rat(z[0]), rat(z[1]) * math.sqrt(rat(s2)))
 
 
-def build_result(case):
-    """SpectrumResult from the model's base estimates (public constructor)."""
+def build_result(case, overflow=False):
+    """SpectrumResult from the model's base estimates (public constructor).
+    overflow=True: the first bin carries the non-finite statistics a single-bin analysis of samples ~1e160 produces
+    (|X|^2 overflows: XX = YY = inf, XY = inf+nan j, M2 = nan)."""
     from speckit.analysis import SpectrumResult
     bins = case["bins"]
     nf = len(bins)
@@ -42,6 +45,11 @@ def build_result(case):
         "S12": np.array([rat(b["S12"]) for b in bins]), "S2": np.array([rat(b["S2"]) for b in bins]),
         "M2": np.array([rat(b["m2"]) for b in bins]), "compute_t": np.zeros(nf),
     }
+    if overflow:
+        d["XX"][0] = np.inf
+        d["YY"][0] = np.inf
+        d["XY"][0] = complex(np.inf, np.nan)
+        d["M2"][0] = np.nan
     return SpectrumResult(d, {}, bool(case["iscsd"]), fs)
 
 
@@ -171,6 +179,51 @@ def measure_checks(res, case, step, only):
     return probs
 
 
+def _data_bytes(res):
+    return {k: v.tobytes() for k, v in res._data.items() if isinstance(v, np.ndarray) and v.dtype != object}
+
+
+def _replay_unchanged(case, hist, overflow):
+    """Result.tla: every operation leaves `res` UNCHANGED and its value depends on `res` alone.  Run the history and compare,
+    after every step, (a) the stored statistics byte for byte with those the object was built from and (b) the value a `get`
+    returns with the value the same attribute has on a freshly built object (bitwise, so that inf/nan statistics - the
+    overflow twin - are covered too)."""
+    res = build_result(case, overflow)
+    base = _data_bytes(res)
+    tag = "overflow_twin" if overflow else "result"
+    probs = []
+    for step, op in enumerate(hist):
+        kind, name = op["op"], op.get("name", "")
+        try:
+            with np.errstate(all="ignore"), warnings.catch_warnings():
+                warnings.simplefilter("ignore")
+                if kind == "get":
+                    val = getattr(res, name)
+                    ref = getattr(build_result(case, overflow), name)
+                    if (val is None) != (ref is None) or (val is not None and np.asarray(val).tobytes() != np.asarray(ref).tobytes()):
+                        probs.append((f"step{step}:get", name, -1, f"{tag}: value depends on what was accessed before", ""))
+                elif kind == "frame":
+                    res.to_dataframe()
+                elif kind == "measure" and not overflow:
+                    res.get_measurement(float(res.f[0]), name)
+                elif kind == "copy":
+                    res = copy.copy(res)
+                elif kind == "deepcopy":
+                    res = copy.deepcopy(res)
+                elif kind == "pickle":
+                    res = pickle.loads(pickle.dumps(res))
+        except Exception as exc:
+            if not overflow:
+                probs.append((f"step{step}:{kind}", name, -1, f"{tag}: raises {type(exc).__name__}", str(exc)[:100]))
+            break
+        now = _data_bytes(res)
+        changed = sorted(k for k in base if now.get(k) != base[k])
+        if changed:
+            probs.append((f"step{step}:{kind}", name, -1, f"{tag}: stored statistics modified: {changed}", ""))
+            base = now
+    return probs
+
+
 def replay_history(item):
     """item = (case, hist).  Execute the operations on one real result; after every step compare the
     returned value with the definition and verify that arrays returned earlier were not mutated."""
@@ -178,6 +231,7 @@ def replay_history(item):
     res = build_result(case)
     probs = []
     held = []          # (name, array object, bytes at return time)
+    probs += _replay_unchanged(case, hist, False) + _replay_unchanged(case, hist, True)
 
     def hold(name, val):
         if isinstance(val, np.ndarray) and val.dtype != object:
